@@ -68,6 +68,33 @@ Theorem C07_other_ids_dont_count :
 Proof. exact c07_other_ids_dont_count_p. Qed.
 Print Assumptions C07_other_ids_dont_count.
 
+(* Whatever method of the TokenReadEncoder the handler writes through —
+   EncodeToken token by token, xmlstream.Copy into it, Encode(v), or
+   EncodeElement(v, start), which replaces the outermost start and end tag — the
+   tokens go through the same detector ([run_h] of [h_write m ts k] is [run_h] of
+   [k] with the checker advanced over [method_tokens m ts]), the element that
+   reaches it is [method_tree m t], and a top-level element so written is
+   counted as the reply exactly when that element is one ([reply_tree]). With
+   C07_exactly_one_reply: a reply written by ANY method suppresses the default
+   reply, and one that is none does not. That the code funnels every method
+   into EncodeToken is read from the source (C07_tables: [sv_rc_*]). *)
+Theorem C07_reply_detected_by_every_method :
+  (forall ws id m ts k s w seen,
+     run_h ws id (h_write m ts k) s w seen = run_h ws id k s (enc_all id (method_tokens m ts) w) seen) /\
+  (forall m n0 a0 kids,
+     method_tokens m (tokens_of_tree (Elem n0 a0 kids)) = tokens_of_tree (method_tree m (Elem n0 a0 kids))) /\
+  (forall id m n0 a0 kids,
+     w_wrote (enc_all id (method_tokens m (tokens_of_tree (Elem n0 a0 kids))) w0)
+     = reply_tree id (method_tree m (Elem n0 a0 kids))) /\
+  (forall id m f, w_wrote (enc_all id (tokens_of_forest (map (method_tree m) f)) w0)
+                  = existsb (reply_tree id) (map (method_tree m) f)).
+Proof.
+  split; [exact run_h_write|]. split; [exact method_tokens_tree|]. split.
+  - intros id m n0 a0 kids. rewrite method_tokens_tree. apply wrote_tree.
+  - intros id m f. apply wrote_forest.
+Qed.
+Print Assumptions C07_reply_detected_by_every_method.
+
 (* IQs of type result or error (or any type other than get/set) and elements
    that are not IQs never get an automatic reply, however the invocation ends
    and whatever is outstanding. *)
@@ -184,9 +211,14 @@ Theorem C07_tables :
   (sv_lookup_any_iq = false /\ sv_lookup_unrecognised = 0 /\ sv_lookup_sites = 1 /\ sv_lookup_uses = 1) /\
   sv_lookup_types = [sv_iq_result; sv_iq_error] /\
   (sv_needs_resp_any_iq = false /\ sv_needs_resp_unrecognised = 0 /\ sv_needs_resp_types = [sv_iq_get; sv_iq_set]) /\
-  (forall b typ, needs_resp typ = true -> consults b typ = false).
+  (forall b typ, needs_resp typ = true -> consults b typ = false) /\
+  (* responseChecker: besides EncodeToken the handler can write through Encode and
+     EncodeElement; both hand the checker itself to the encoder, the embedded
+     writer is mentioned nowhere outside EncodeToken and once in it *)
+  (sv_rc_write_methods = [str "Encode"; str "EncodeElement"] /\ sv_rc_funnelled = 2 /\
+   sv_rc_direct_uses = 0 /\ sv_rc_delegations = 1).
 Proof.
   exact (conj tbl_get_set_are_requests (conj tbl_error_is_no_request (conj tbl_iq_names
-          (conj tbl_lookup_shape (conj tbl_lookup_types (conj tbl_needs_resp_shape consults_not_requests)))))).
+          (conj tbl_lookup_shape (conj tbl_lookup_types (conj tbl_needs_resp_shape (conj consults_not_requests tbl_rc_funnel))))))).
 Qed.
 Print Assumptions C07_tables.
